@@ -14,8 +14,13 @@ This harness ties that model to asyncfix/protocol/schema.py on the two real dict
 * runs an independent statement of "conforms" (below, on the plain dump of the schema, no library
   code) as the property oracle: a conforming message must validate, a non-conforming one must
   raise FIXMessageError and nothing else;
-* decides differentially that the parsed schema does not depend on the declaration order of
-  <components> (all rotations + random permutations; the parse algorithm is outside the model)."""
+* ties the parse model Fix/SchemaParse.v (theorem C15_component_order_independent) to the real
+  parser: all rotations + random permutations of the <components> of the dictionaries, and synthetic
+  dictionaries as generated / with components reversed / with one declaration defect (circular or
+  undeclared reference, duplicate member, unknown field, refused group field, duplicate names,
+  component reference in the header) go through FIXSchema and through the extracted parse model;
+  projection: parsed schema structure or exception class.  Oracle: the schema parsed from a
+  permuted declaration list equals the one of the original order."""
 import copy
 import json
 import os
@@ -36,11 +41,13 @@ META = {
             "nesting forced down to a random deepest group path, optional framing header / CheckSum) and one mutant per "
             "single-fault class and nesting depth (thorough: several positions); a case is one message, non-trivial when its "
             "type is known and it has at least 3 entries; distinct by canonical (dictionary, type, entry tree); plus one case "
-            "per permutation of the <components> declaration order",
+            "per permutation of the <components> declaration order (real parser and parse model) and one per synthetic "
+            "dictionary variant (as generated, components reversed, one declaration defect) sent through real parser and parse model",
     "trusted_base": [
         "translator/gen_schema.py: dump of the parsed schema objects (checks on the objects that the list-of-members abstraction is faithful)",
         "single-value validation (SchemaField.validate_value) is not modelled: its verdict per (field, text) is an input of model and oracle (C19)",
-        "the XML parse (_parse*, deferred component resolution) is outside the model; its independence of the <components> order is tested, not proved",
+        "the dictionary parse is modelled in Fix/SchemaParse.v over the raw declarations read with xml.etree (translator raw_of_root); the XML tokenisation by xml.etree and the attribute access are outside the model",
+        "a group added to a set that already holds a same-named member (Python keeps both objects) is outside the parse model (answer 6, not compared); never met by the two dictionaries",
     ],
     "assumptions": [
         "asyncfix/protocol/schema.py carries fixes/C15-required-groups-header-members.patch (the model describes the repaired code)",
@@ -780,7 +787,10 @@ def impl_parse(root):
         return [1, PARSE_CODES.get(n, n)]
     if schema._header is None:
         return [1, 5]
-    return [0, schema_struct(gen_schema.dump(schema, strict=True))]
+    try:
+        return [0, schema_struct(gen_schema.dump(schema, strict=True))]
+    except Exception as e:  # noqa: BLE001 - the objects are not what the list-of-members rendering assumes
+        return [2, "dump refused: " + str(e)[:200]]
 
 
 def sx_raw(raw):
